@@ -36,7 +36,7 @@ def oracle(case, out):
         op = ops[k].split(' ')
         STB, SRE, ESR, ESE, OPER, OPERE, OPERC, QUES, QUESE, QUESC = regs
         where = 'operation %d (%s)' % (k + 1, ops[k])
-        spec = op[2] if op[0] == 'M' else None
+        spec = reggen.absspec(op[2]) if op[0] == 'M' else None
         if op[0] == 'P':
             c = int(op[1])
             want = prev[2] | klass(c)      # on overflow the pushed code is still the event that occurred; -350 only replaces the queue entry
